@@ -31,6 +31,9 @@ LEFT = {
     'ethyl-first': ('F{t}C(CC)', None),
     'S-aryl-branch': ('CSc1ccccc1C({t}F)', 'CSc1ccccc1|C({t}F)'),
     'branch-bracket': ('C({t}[F])', None),      # the mark is directly followed by a bracket atom
+    # the marked substituent is an explicitly written hydrogen atom (the relation is then stated between H and Cl)
+    'H-first': ('[H]{t}C(F)', None),
+    'H-branch': ('FC({t}[H])', None),
 }
 RIGHT = {
     'after': ('C{t}Cl', None),
@@ -46,15 +49,20 @@ def uncut(lf, rf, tl, tr):
     return LEFT[lf][0].format(t=tl) + '=' + RIGHT[rf][0].format(t=tr)
 
 
-def relation_by_pysmiles(smiles):
+def ligand(lf):
+    return 'H' if lf.startswith('H-') else 'F'
+
+
+def relation_by_pysmiles(smiles, lig='F'):
     import pysmiles
     g = pysmiles.read_smiles(smiles, explicit_hydrogen=True)
-    f = [n for n, d in g.nodes(data=True) if d['element'] == 'F'][0]
-    for entry in g.nodes[f].get('ez_isomer', []):
-        ends = {g.nodes[entry[0]]['element'], g.nodes[entry[3]]['element']}
-        if ends == {'F', 'Cl'}:
-            return entry[4]
-    return None
+    rels = set()
+    for n, d in g.nodes(data=True):
+        for entry in d.get('ez_isomer', []) or []:
+            ends = {g.nodes[entry[0]]['element'], g.nodes[entry[3]]['element']}
+            if ends == {lig, 'Cl'}:
+                rels.add(entry[4])
+    return rels.pop() if len(rels) == 1 else None
 
 
 def variants():
@@ -64,7 +72,7 @@ def variants():
         for rf in RIGHT:
             for tl in TOK:
                 for tr in TOK:
-                    rel = relation_by_pysmiles(uncut(lf, rf, tl, tr))
+                    rel = relation_by_pysmiles(uncut(lf, rf, tl, tr), ligand(lf))
                     if rel in ('cis', 'trans'):
                         out.append((lf, rf, rel, tl, tr))
     return out
@@ -263,6 +271,17 @@ def run_task(task, R):
                         inp = {'family': 'db', 'lf': lf, 'rf': rf, 'rel': rel, 'tl': tl, 'tr': tr, 'cut': cut, 'kind': kind,
                                'order': order, 'deforder': deforder}
                         R.record(inp, evaluate(inp))
+                    if n == 1:
+                        continue
+                    # a fragment name that occurs a second time in the base graph: a disconnected spectator copy of
+                    # one of the fragments, listed first or last
+                    for k in range(n):
+                        for where in ('first', 'last'):
+                            ex.states += 1
+                            ex.transitions += 1
+                            inp = {'family': 'db', 'lf': lf, 'rf': rf, 'rel': rel, 'tl': tl, 'tr': tr, 'cut': cut, 'kind': kind,
+                                   'order': order, 'deforder': tuple(range(n)), 'spectator': [k, where]}
+                            R.record(inp, evaluate(inp))
     R.add_explorer(ex)
 
 
@@ -293,6 +312,9 @@ def build_db(inp):
         if i > 0 and (i - 1, i) not in chain_edges:
             s += '.'
         s += '[#%s]%s' % (names[i], marks[i])
+    if inp.get('spectator'):
+        k, where = inp['spectator']
+        s = ('[#F%d].' % k + s) if where == 'first' else (s + '.[#F%d]' % k)
     base = '{' + s + '}'
     deforder = inp.get('deforder') or tuple(range(n))
     fragstr = '{' + ','.join('#F%d=%s' % (i, frs[i]) for i in deforder) + '}'
@@ -329,18 +351,23 @@ def evaluate(inp):
         return bad(r[0], inp['rel'], dict(r[1], string=s), nontrivial=nontrivial)
     f = [n for n, d in g.nodes(data=True) if d.get('element') == 'F']
     cl = [n for n, d in g.nodes(data=True) if d.get('element') == 'Cl']
-    if len(f) != 1 or len(cl) != 1:
+    text = s.split('.{')[0]
+    frag = dict(kv.split('=', 1) for kv in s.split('.{')[1][:-1].split(','))
+    want_f = sum(frag['#' + nm].count('F') for nm in __import__('re').findall(r'\[#(\w+)\]', text))
+    want_cl = sum(frag['#' + nm].count('Cl') for nm in __import__('re').findall(r'\[#(\w+)\]', text))
+    if len(f) != want_f or len(cl) != want_cl:
         return bad('molecule', None, {'string': s}, nontrivial=nontrivial)
+    lig = ligand(inp['lf'])
     rels = set()
-    for n in (f[0], cl[0]):
-        for entry in g.nodes[n].get('ez_isomer', []) or []:
-            if {entry[0], entry[3]} == {f[0], cl[0]}:
+    for n, d in g.nodes(data=True):
+        for entry in d.get('ez_isomer', []) or []:
+            if {g.nodes[entry[0]].get('element'), g.nodes[entry[3]].get('element')} == {lig, 'Cl'}:
                 rels.add(entry[4])
     if not rels:
         return bad('relation-lost', inp['rel'], {'string': s}, nontrivial=nontrivial)
     if rels != {inp['rel']}:
         return bad('relation-flipped', inp['rel'], {'string': s, 'got': sorted(rels)}, nontrivial=nontrivial)
-    return Verdict(nontrivial=nontrivial, outcome='%s/%s/%s' % (inp['cut'], inp['rel'], len(cg)))
+    return Verdict(nontrivial=nontrivial, outcome='%s/%s/%s/%s' % (inp['cut'], inp['rel'], len(cg), lig))
 
 
 def evaluate_diene(inp, s, nontrivial):
